@@ -11,9 +11,18 @@ def main():
     for a in sys.argv:
         if a.startswith('--jobs='):
             jobs = int(a[7:])
-    b = build.prepare()
+    extra = [x for x in os.environ.get('MIRSYM_EXTRA_MIR', '').split(',') if x]
+    b = build.prepare(extra_mir_pkgs=tuple(extra))
     t = time.time()
-    eng = run.load([(b['mir'], b['src'])], [(os.path.join(b['src'], 'src'), '')], opts)
+    mirs = [(b['mir'], b['src'])]
+    srcs = [(os.path.join(b['src'], 'src'), '')]
+    for pkg in extra:
+        import glob
+        root = sorted(glob.glob(os.path.expanduser('~/.cargo/registry/src/*/%s-[0-9]*' % pkg)))[-1]
+        mirs.append((os.path.join(b['out'], pkg + '.mir'), root))
+        srcs.append((os.path.join(root, 'src'), pkg + '::'))
+    opts['extra_pkgs'] = extra
+    eng = run.load(mirs, srcs, opts)
     print('loaded in %.1fs' % (time.time() - t))
     names = []
     for a in args:
